@@ -14,6 +14,7 @@ import Proofs.XdrSize
 import Proofs.XdrPrefix
 import Proofs.XdrStream
 import Proofs.XdrFuel
+import Proofs.XdrNoFuel
 namespace Pydap.C05
 open Pydap Pydap.Xdr
 open Pydap.Stream (SR srRead absSR)
@@ -89,6 +90,11 @@ theorem C05_truncated_rejected_stream (t : Tmpl) (d : Data) (cs : List Bytes) (q
     (he : XdrSpec.enc t d = cs.flatten ++ q) (hq : q ≠ []) : absSR (decStream t cs) = .error .eof := by
   rw [decStream_eq, decImpl_prefix_short t d cs.flatten q h he hq]
   rfl
+
+/-- **fuel adequacy on every stream** (conforming or not): the loops of the model never run out of the fuel
+    `decImpl` passes — the model's own error `fuel` does not occur, every error it reports is one the Python raises -/
+theorem C05_fuel_adequate (t : Tmpl) (s : Bytes) : decImpl t s ≠ .error .fuel :=
+  decImpl_nf t s
 
 /-- the fuel of the model is immaterial on *any* stream: every amount that covers the stream gives `decImpl` -/
 theorem C05_fuel_immaterial (t : Tmpl) (s : Bytes) (f : Nat) (h : fuelFor t s ≤ f) : dec f t s = decImpl t s :=
